@@ -24,7 +24,7 @@ CT = "application/x-amz-json-1.0"
 
 # --------------------------------------------------------------------------- pools
 
-NAMES = ["m1", "m2", "m3"]
+NAMES = ["m1", "m1-v2", "m"]        # prefixes of one another: listing by machine must compare whole ARNs
 BAD_NAMES = ["", "a b", "x/y", "n" * 81, "a:b", "q?", "a\n:", "a:b\nc", "tail\n", "semi;colon", 5, None,
              True, ["m1"], {"n": 1}]
 ACCOUNTS = ["0123456789", "42"]
